@@ -49,8 +49,13 @@ func typedKey(s string) []byte { return append([]byte{5}, []byte(s)...) }
 
 func igStr(v any) string { return fmt.Sprint(v) }
 
+// ids of the model rendered through the environment's token table (a table where one id is a proper prefix of another:
+// look-ups that compare with a prefix test instead of equality then confuse the two)
+var prefixIds = map[string]string{"p2": "p1x", "p3": "p1xy", "t2": "t1x"}
+
 func buildBase(env *storerun.Env, base map[string]any) error {
 	S := env.S
+	igStr := func(v any) string { return env.Tok.Real(fmt.Sprint(v)) }
 	return env.Db.Update(nil, func(ctx boltz.MutateContext) error {
 		if tms, ok := base["tms"].([]any); ok {
 			for _, t := range tms {
@@ -70,7 +75,7 @@ func buildBase(env *storerun.Env, base map[string]any) error {
 		mk := func(id string, withBoss bool) *schema.Person {
 			m := ents[id].(map[string]any)
 			p := &schema.Person{Name: igStr(m["name"])}
-			p.Id = id
+			p.Id = igStr(id)
 			if n := igStr(m["nick"]); n != project.Nil {
 				p.Nick = &n
 			}
@@ -97,7 +102,7 @@ func buildBase(env *storerun.Env, base map[string]any) error {
 		if pt, ok := base["lnkPT"].(map[string]any); ok {
 			for p, ts := range pt {
 				for _, t := range ts.([]any) {
-					if err := S.People.Links.AddLinks(ctx.Tx(), p, igStr(t)); err != nil {
+					if err := S.People.Links.AddLinks(ctx.Tx(), igStr(p), igStr(t)); err != nil {
 						return err
 					}
 				}
@@ -111,7 +116,12 @@ func corrupt(env *storerun.Env, corr []map[string]any) error {
 	return env.Db.Update(nil, func(ctx boltz.MutateContext) error {
 		tx := ctx.Tx()
 		for _, c := range corr {
-			s := func(k string) string { return igStr(c[k]) }
+			s := func(k string) string {
+				if k == "c" || k == "f" {
+					return fmt.Sprint(c[k])
+				}
+				return env.Tok.Real(fmt.Sprint(c[k]))
+			}
 			var err error
 			switch s("c") {
 			case "uDel":
@@ -224,7 +234,11 @@ func integrityMain(args []string) error {
 					add("panic", fmt.Sprint(p))
 				}
 			}()
-			env, err := storerun.NewEnv(*scratch, schema.Config{BossMode: "idxNull", TeamMode: "off"}, project.NewTokens(nil))
+			var table map[string]string
+			if idx%2 == 1 {
+				table = prefixIds
+			}
+			env, err := storerun.NewEnv(*scratch, schema.Config{BossMode: "idxNull", TeamMode: "off"}, project.NewTokens(table))
 			if err != nil {
 				add("harness", err.Error())
 				return
